@@ -99,9 +99,9 @@ func (v VerifInvocation) Compile(machineCombiners bool) ([]*Task, bigslice.Slice
 	return tasks, slice, err
 }
 
-// Freeze freezes the compile environment (done by the driver before the
-// invocation is shipped).
-func (v *VerifInvocation) Freeze() { v.inv.Env.Freeze() }
+// Freeze freezes the compile environment as Session.run does after
+// compiling: that of the invocation and of the copies held by tasks.
+func (v *VerifInvocation) Freeze(tasks []*Task) { freezeEnv(&v.inv, tasks) }
 
 // Encode gob-encodes the invocation as the driver does for Worker.Compile:
 // *Result arguments are replaced by invocation references.
